@@ -108,7 +108,12 @@ class State:
         s.aux = dict(self.aux)
         return s
 
+    JUDGED = ("assert_undecided", "unwrap", "sum", "index_range", "index_elem")
+
     def emit(self, ev):
+        if ev[0] in State.JUDGED:
+            # events that a later analysis must discharge carry the facts known *at that point* (not the end of the path)
+            ev = ev + (frozenset(self.cons.items()),)
         self.trace = self.trace + (ev,)
 
     def new_sym(self, hint, ty):
@@ -929,16 +934,32 @@ class Evaluator:
             return None
         if snap is None:
             act.visits[h] = (dict(fr), dict(st.heap), 1, len(act.visits))
+            act.cvisits[("keys", h)] = frozenset(st.cons.keys())
             return None
         old_fr, old_heap, n, order = snap
+        # a new iteration: the generic item terms ("item", iterator, site) now stand for another element, so what was learned
+        # about them during the previous iteration is forgotten (facts that held before the loop started are about other,
+        # unchanged items and stay)
+        keep = act.cvisits.get(("keys", h), frozenset())
+        for t in [t for t in st.cons if t not in keep and has_item(t)]:
+            del st.cons[t]
         # loops nested inside this one start afresh in the next iteration
         for h2 in [k for k, v in act.visits.items() if v[3] > order]:
             del act.visits[h2]
+            for k2 in [k for k in act.cvisits if isinstance(k, tuple) and k[0] in ("idle", "keys") and k[1] == h2]:
+                del act.cvisits[k2]
         changed = False
         widened = []
         for l, v in list(fr.items()):
+            if l in old_fr and old_fr[l] == v and v[0] == "seq":
+                # an iteration in which this vector did not grow: a summary of it may no longer claim "one group per item"
+                act.cvisits[("idle", h, l)] = True
+                if any(i[0] == "mapped" for i in v[1]):
+                    fr[l] = ("seq", tuple(("mapped_some",) + i[1:] if i[0] == "mapped" else i for i in v[1]))
+                    changed = True
+                continue
             if l in old_fr and old_fr[l] != v:
-                sm = seq_summary(old_fr[l], v)
+                sm = seq_summary(old_fr[l], v, act.cvisits.get(("idle", h, l), False))
                 if sm is not None:
                     # a vector that grows by the same group of pushes in every iteration: prefix ++ (group)*
                     if sm != old_fr[l]:
@@ -1496,7 +1517,7 @@ def len_term(v):
     return ("len", v)
 
 
-def seq_summary(ov, v):
+def seq_summary(ov, v, idle=False):
     """Loop invariant for a push loop.  ov/v: a local's value at the previous / this arrival at the loop header.
     First widening: v == ov ++ [elem e1..ek]  ->  ov ++ [mapped (e1..ek)], read "zero or more repetitions of the group, one per
     iteration, the generic item terms standing for that iteration's item".  Later arrivals: the body must have appended exactly
@@ -1510,11 +1531,20 @@ def seq_summary(ov, v):
     extra = n[len(o):]
     if not all(x[0] == "elem" for x in extra):
         return None
-    if o and o[-1][0] == "mapped":
+    if o and o[-1][0] in ("mapped", "mapped_some"):
         return ov if extra == o[-1][1] else None
     its = set()
     collect_items(extra, its)
-    return ("seq", o + (("mapped", extra, its.pop() if len(its) == 1 else None),))
+    # `mapped`: every iteration so far appended the group; `mapped_some`: some iterations did not (conditional push)
+    return ("seq", o + (("mapped_some" if idle else "mapped", extra, its.pop() if len(its) == 1 else None),))
+
+
+def has_item(t):
+    if isinstance(t, tuple):
+        if t and t[0] in ("item", "item_index"):
+            return True
+        return any(has_item(x) for x in t)
+    return False
 
 
 def collect_items(t, out):
@@ -1615,7 +1645,7 @@ def fmt_term(t, depth=0):
     if k == "unwrap":
         return "unwrap(%s)" % f(t[1])
     if k == "seq":
-        return "seq[" + ", ".join(("%s" % f(i[1])) if i[0] == "elem" else ("*%s" % f(i[1])) if i[0] == "splice" else ("(%s)*" % ", ".join(f(x[1]) for x in i[1])) if i[0] in ("mapped", "mapped_all") else "fill_to(%s,%s)" % (f(i[1]), f(i[2])) for i in t[1]) + "]"
+        return "seq[" + ", ".join(("%s" % f(i[1])) if i[0] == "elem" else ("*%s" % f(i[1])) if i[0] == "splice" else ("(%s)*" % ", ".join(f(x[1]) for x in i[1])) if i[0] in ("mapped", "mapped_all", "mapped_some") else "fill_to(%s,%s)" % (f(i[1]), f(i[2])) for i in t[1]) + "]"
     if k == "item":
         return "item(%s)" % f(t[1])
     if k == "fn":
